@@ -9,9 +9,13 @@ KANI_ENV = {'CARGO_NET_OFFLINE': 'true'}
 def crate_dir(name): return os.path.join(core.VERIF, 'harness', name)
 
 
+def target_dir(name, features=()):
+    return core.workdir('kani', name + ('-' + '-'.join(sorted(features)) if features else ''))
+
+
 def codegen(name, features=()):
     """Build the harness crate once (also checks that /repo still compiles under Kani) and return the harness names."""
-    d = crate_dir(name); target = core.workdir('kani', name)
+    d = crate_dir(name); target = target_dir(name, features)
     for p in glob.glob(os.path.join(target, 'kani', '**', '*.kani-metadata.json'), recursive=True): os.remove(p)
     os.utime(os.path.join(d, 'src', 'lib.rs'))      # force the harness crate itself to be re-generated (fresh metadata)
     cmd = ['cargo', 'kani', '--only-codegen', '--target-dir', target] + (['--features', ','.join(features)] if features else [])
@@ -51,7 +55,7 @@ def parse(out):
 
 
 def run_one(name, harness, features=(), wall=600, mem_gb=12, extra=()):
-    d = crate_dir(name); target = core.workdir('kani', name)
+    d = crate_dir(name); target = target_dir(name, features)
     cmd = 'ulimit -v %d; exec timeout %d cargo kani --exact --harness %s --target-dir %s %s %s' % (
         mem_gb * 1024 * 1024, wall, harness, target, ('--features ' + ','.join(features)) if features else '', ' '.join(extra))
     t = time.time()
@@ -123,7 +127,7 @@ def check(rep, pid, name, select, features=(), wall=600, need_covers=True, shoul
         rep.sample({'harness': h, 'status': r['status'], 'cbmc_s': r.get('time'), 'covers': r['covers']}, cap=8)
     rep.counters['distinct_nontrivial'] += nontrivial
     rep.counters['paths'] += len(results); rep.counters['solver_queries'] += len(results)
-    rep.bounds.setdefault('kani', {})[name] = {'harnesses_run': len(hs), 'harnesses_available': len(allh), 'wall_s': round(time.time() - t0, 1), 'unwinding_assertions': 'on (a too-small unwind bound fails the harness)'}
+    rep.bounds.setdefault('kani', {})[name + ('+' + '+'.join(features) if features else '')] = {'harnesses_run': len(hs), 'harnesses_available': len(allh), 'wall_s': round(time.time() - t0, 1), 'unwinding_assertions': 'on (a too-small unwind bound fails the harness)'}
     return results
 
 
